@@ -240,13 +240,22 @@ def run_term(items, st=None):
 
 
 @guarded('C07')
-def run_pair(i1, i2, st=None):
-    """==, hash, *, / of two terms"""
+def run_pair(i1, i2, st=None, order='eq-first'):
+    """==, hash, *, / of two terms; order 'ops-first' evaluates product and
+    quotient before anything normalises the operands"""
     try:
         d1, d2 = den_items(i1), den_items(i2)
     except ZeroDivisionError:
         return []
     t1, t2 = mk(i1), mk(i2)
+    if order == 'ops-first':
+        p0 = t1 * t2
+        q0 = t1 / t2 if d2[0] != 0 else None
+        pw = (d1[0] * d2[0], tuple(sorted(
+            (k, v) for k, v in _vadd(d1[1], d2[1], 1).items() if v)))
+        if has_float(p0) or den_term(p0) != pw:
+            return [('C07:mul:cold', f"Term({i1}) * Term({i2}) = {p0!r}, "
+                     f"expected {pw}")]
     what = f"Term({i1}) vs Term({i2})"
     out = []
     eq = t1 == t2
@@ -297,13 +306,17 @@ def _vadd(v1, v2, sign):
 
 
 @guarded('C07')
-def run_unary(items, n, k, st=None):
-    """** n, reciprocal, k / t, t * k, k * t, t / k"""
+def run_unary(items, n, k, st=None, warm=False):
+    """** n, reciprocal, k / t, t * k, k * t, t / k; warm: the term's
+    memoised normal form and hash exist before the operations"""
     try:
         d = den_items(items)
     except ZeroDivisionError:
         return []
     t = mk(items)
+    if warm:
+        hash(t)
+        t.normalized()
     kk, vk = O.dec(k), O.val(k)
     what = f"Term({items})"
     out = []
@@ -335,7 +348,36 @@ def run_unary(items, n, k, st=None):
         if den_term(r) != want or den_term(r.normalized()) != want:
             out.append((f'C07:op:{opname}', f"{what} {name} = {r!r} denotes "
                         f"{den_term(r)}, expected {want}"))
+            continue
+        nf = check_normal_form(r, f"{what} {name}")
+        out += [(sg + f':of-{opname}', m) for sg, m in nf]
+        # the result equals (and hashes like) a freshly built term of the
+        # same denotation
+        twin = mk(items)
+        twin = f_twin(twin, name, n, kk)
+        if twin is not None and (not (r == twin) or hash(r) != hash(twin)):
+            out.append((f'C07:op:{opname}:eq-fresh', f"{what} {name} = {r!r}"
+                        f" is not equal to / does not hash like the same "
+                        f"operation on a fresh term ({twin!r})"))
+    if warm:
+        out = [(sg + ':warm', m) for sg, m in out]
     return out
+
+
+def f_twin(t, name, n, kk):
+    if name.startswith('**'):
+        return t ** n
+    if name == 'reciprocal':
+        return t.reciprocal()
+    if name.endswith('/'):
+        return kk / t
+    if name.startswith('* '):
+        return t * kk
+    if name.endswith('*'):
+        return kk * t
+    if name.startswith('/ '):
+        return t / kk
+    return None
 
 
 @guarded('C07')
@@ -382,9 +424,10 @@ def part_pairs(firsts, shorts):
     st = Stats()
     for i1 in firsts:
         for i2 in shorts:
-            st.paths += 1
-            for sig, msg in run_pair(i1, i2, st):
-                st.violation(sig, msg, {'pair': [i1, i2]})
+            for order in ('eq-first', 'ops-first'):
+                st.paths += 1
+                for sig, msg in run_pair(i1, i2, st, order):
+                    st.violation(sig, msg, {'pair': [i1, i2, None, order]})
     return st
 
 
@@ -393,9 +436,11 @@ def part_unary(terms, ks):
     for items in terms:
         for n in (-2, -1, 0, 1, 2, 3):
             for k in ks:
-                st.paths += 1
-                for sig, msg in run_unary(items, n, k, st):
-                    st.violation(sig, msg, {'unary': [items, n, k]})
+                for warm in (False, True):
+                    st.paths += 1
+                    for sig, msg in run_unary(items, n, k, st, warm):
+                        st.violation(sig, msg, {'unary': [items, n, k,
+                                                          None, warm]})
     return st
 
 
